@@ -3,6 +3,7 @@ import KyupyVerif.Proofs.CircObjInv
 import KyupyVerif.Proofs.CircObjStats
 import KyupyVerif.Proofs.CircObjSubst
 import KyupyVerif.Proofs.CircObjSubstStatic
+import KyupyVerif.Proofs.CircObjSubstFull
 /-! # C09 — circuit graph stays consistent under every edit history
 
 Object of the theorems: the hand-written object-level model `KV.CircObj` (Model/CircObj.lean) of `kyupy/circuit.py`:
@@ -26,12 +27,27 @@ fork outputs contain no `None`, ports are nodes of the circuit (plus model bookk
   the node list (`cells_perm`, `forks_perm`, `stats_sizes`, `stats_kind_count`), and the literal `defaultdict` computation
   of `stats` returns base value + those counts for every key (`stats_value`, `stats_seq`).
   `substitute`, `remove_dangling_nodes`, `resolve_tlib_cells` are modelled at object level too (Model/CircObjSub.lean:
-  statement-by-statement over the same primitives, `none` where Python raises): `removeDangling_wf` (any node of any
-  well-formed circuit, no further hypothesis), `substitute_wf0` / `substitute_wf` under the decidable `substPre0` / `substPre`
-  (kinds, no self loop, pin guards evaluated along the run, gap-free forks in the result; NO hypothesis on the implementation
-  circuit), `resolve_wf`, uniformly `step2_wf`, and `history_wf2` for histories over all twelve operations.  Inside these
-  operations `WFc` does not hold (lines keep a stale end while the node's pin lists are already cleared): the proofs go
-  through the weaker invariant `SInv` (Proofs/CircObjSInv.lean) with the pending line ends as parameters.
+  `substituteObj`, `removeDanglingObj`, `resolveObj`, statement by statement over the same primitives `addNode`, `addLine`
+  with explicit pins, `removeLine`, `removeNode`; node-keyed sets and dictionaries compare by `Node.__eq__`; `none` where
+  Python raises).  Inside these operations `WFc` does not hold (lines keep a stale end while the node's pin lists are
+  already cleared or the node is already removed): the proofs go through the weaker invariant `SInv`
+  (Proofs/CircObjSInv.lean) with the pending line ends as parameters.  Proved:
+  - `removeDangling_wf`: any node of any well-formed circuit, no further hypothesis;
+  - `substitute_wf0_static`: well-formed host AND implementation + the structural precondition `substStatic` (the node is
+    a cell and stays one / is not a port when it gets removed, no line from the node to itself, port list of the
+    implementation without duplicates, designated cell not a port) ⇒ the result satisfies `WFc0` = everything of `WFc`
+    except gap-freeness of fork outputs — all arities, unconnected and ignored pins, ports read internally, state elements,
+    removal of dangling logic included; via `substStatic_pre0` (structure ⇒ the run-time pin guards `substGuards`:
+    `node_map` is injective, every occupied pin of an image stems from a copied implementation line or an instance pin);
+  - `substitute_wf_static` / `substStatic_pre`: in the regular case `substRegular` (every instance output connected, output
+    ports of the implementation with one input line, fork-ports gap-free) the result satisfies `WFc`; nothing is
+    evaluated along the run;
+  - `substitute_wf0` / `substitute_wf`: the same conclusions from the decidable run-time preconditions `substPre0` /
+    `substPre` (kinds, no self loop, pin guards, `forksFull` of the result) with NO hypothesis on the implementation;
+  - `resolve_wf` (`resolvePre`), `resolve_wf_static` (`resolveStatic`), uniformly `step2_wf`, and `history_wf2` /
+    `history_wf2_prefix` for histories over all twelve operations.
+  What is NOT a structural theorem: `WFc` (not just `WFc0`) of `substitute` with open output pins — there `substPre`
+  contains the run-time check `forksFull` of the result; D30 is a use of that kind where the real code leaves a gap.
 * **Correspondence** (harness/c09.py, differential, not proof): the model against the real `kyupy.circuit` API on random
   edit histories — canonical dump after EVERY step (node kinds, names, pin lists as line indices, line ends, `io_nodes`,
   `cells`/`forks` in dictionary order, `stats`) must be equal, `pre` must accept every generated operation, and `invOK` of
@@ -205,10 +221,28 @@ the result; D30 in known_findings.json is a use where the real code leaves a gap
 theorem substitute_wf {c c' : Circ} {i : Nat} {impl : Circ} (wf : WFc c) (hpre : substPre c i impl = true)
     (h : substituteObj c i impl = some c') : WFc c' := KV.CircObj.substituteObj_wf wf hpre h
 
+/-- the regular case, structural precondition only: well-formed host and implementation, `substStatic`, and
+`substRegular` (every output of the instance is connected, every output port of the implementation has exactly one
+input line, ports that become forks have gap-free outputs) give `WFc` of the result.  Input pins may be unconnected
+or ignored by the implementation, ports may be read internally, the implementation may contain forks and state
+elements; nothing is evaluated along the run. -/
+theorem substitute_wf_static {c c' : Circ} {i : Nat} {impl : Circ} (wf : WFc c) (hst : substStatic c i impl = true)
+    (hreg : substRegular c i impl = true) (h : substituteObj c i impl = some c') : WFc c' :=
+  KV.CircObj.substituteObj_wf_static wf hst hreg h
+
+/-- ... in other words the structural conditions imply the run-time precondition `substPre` -/
+theorem substStatic_pre {c : Circ} {i : Nat} {impl : Circ} (wf : WFc c) (hst : substStatic c i impl = true)
+    (hreg : substRegular c i impl = true) : substPre c i impl = true := KV.CircObj.substPre_of_static wf hst hreg
+
 /-- `c.resolve_tlib_cells(tlib)`: the loop over the snapshot `list(self.nodes)`; `resolvePre` = every substitution it
 performs is a well-formed use -/
 theorem resolve_wf {lib : Lib} {c c' : Circ} (wf : WFc c) (hpre : resolvePre lib c = true) (h : resolveObj lib c = some c') :
     WFc c' := KV.CircObj.resolveObj_wf wf hpre h
+
+/-- `resolve_tlib_cells` when every substitution it performs is a regular structural one (`resolveStatic`: `substStatic`
+and `substRegular` on the circuit as it is when that substitution starts) -/
+theorem resolve_wf_static {lib : Lib} {c c' : Circ} (wf : WFc c) (hst : resolveStatic lib c = true)
+    (h : resolveObj lib c = some c') : WFc c' := resolve_wf wf (KV.CircObj.resolvePre_of_static wf hst) h
 
 /-- every operation of the extended repertoire preserves `WFc` under its decidable precondition `pre2` -/
 theorem step2_wf {c c' : Circ} (wf : WFc c) (op : Op2) (hpre : pre2 c op = true) (h : step2 c op = some c') : WFc c' :=
@@ -267,17 +301,21 @@ example : ((run2 empty (exHistory2.take 21)).map fun c => (c.nodes.length, c.lin
   decide +kernel
 example : ((run2 empty exHistory2).map fun c => (c.nodes.length, c.lines.length, invOK c)) = some (8, 8, true) := by
   decide +kernel
-/-- the structural precondition holds for the substitution in this history -/
-example : ((run2 empty (exHistory2.take 13)).map fun c => substStatic c 2 exImpl) = some true := by decide +kernel
+/-- the structural preconditions hold for the substitution and for the resolution in this history -/
+example : ((run2 empty (exHistory2.take 13)).map fun c => (substStatic c 2 exImpl, substRegular c 2 exImpl)) = some (true, true) := by
+  decide +kernel
+example : ((run2 empty (exHistory2.take 20)).map fun c => resolveStatic [("INVX", exImpl2)] c) = some true := by decide +kernel
 
-/-- D30: an open output pin whose implementation line leaves a fork below another kept output: every other part of the
-precondition holds (`substPre0`, so the result satisfies `WFc0`), but the copied fork has a gap and `substPre` is false -/
+/-- D30: an open output pin whose implementation line leaves a fork below another kept output: the structural
+precondition `substStatic` holds (so the result satisfies `WFc0`), the use is not regular (`substRegular` is false: an
+output is open), the copied fork has a gap and `substPre` is false -/
 def exGap : Circ := setState
   { nodes := [("A", "input"), ("F", FORK), ("X", "INV1"), ("O1", "output"), ("O2", "output")],
     lines := [(0, 0, 1, 0), (1, 0, 3, 0), (1, 1, 2, 0), (2, 0, 4, 0)], io := [0, 4, 3] }
 example : ((run2 empty [.base (.addNode "a" "input"), .base (.addNode "u" "CELLX1"), .base (.addNode "o" "output"),
     .base (.addLine 0 none 1 none), .base (.addLine 1 (some 0) 2 none), .base (.ioAppend 0), .base (.ioAppend 2)]).map fun c =>
-    (substPre0 c 1 exGap, substPre c 1 exGap, (substituteObj c 1 exGap).map invOK)) = some (true, false, some false) := by
+    (substStatic c 1 exGap, substRegular c 1 exGap, substPre0 c 1 exGap, substPre c 1 exGap, (substituteObj c 1 exGap).map invOK)) =
+    some (true, false, true, false, some false) := by
   decide +kernel
 
 /-! ## statistics -/
